@@ -408,28 +408,42 @@ Proof.
     [rewrite (requested_none_falsy _ _ H Ep)|]; rewrite get_nameid_format_spec; reflexivity.
 Qed.
 
-Lemma nameid_holds x r : guard x -> create x = Issued r -> nameid_ok x r.
+Lemma nim_format_in_force x : forall sec, applicable (policy_in_force x) (requester x) (ra x) sec ->
+  nim_format x = match requested_format x with Some f => f | None => format_of sec end.
 Proof.
-  intros G H. destruct (create_issued _ _ H) as (nm & src & sr & sa & Hc & _ & ->).
-  unfold nameid_ok; cbn [i_nameid]. unfold choose_name_id, choose_name_id_with in Hc.
-  destruct (a_name_id (arg x)) as [n|] eqn:En; [inversion Hc; reflexivity|].
-  destruct (requested_format x) as [f|] eqn:Erf.
-  - (* a Format was requested: a stored identifier is found under that format only *)
-    destruct (requested_some _ _ Erf) as (p & Ep & Epf & _ & _). rewrite Ep in Hc.
-    destruct (find_nameid (stored x) (snq_of x) (Some (p_format p))) as [[k n]|] eqn:Ef.
-    + inversion Hc; subst nm src. unfold find_nameid in Ef. apply find_first_some in Ef.
-      apply andb_true_iff in Ef. destruct Ef as [_ Ef]. apply opt_eqb_string in Ef. rewrite Ef. exact Epf.
-    + apply get_nameid_format_ok in Hc. rewrite Hc, (nim_format_requested _ _ Erf). reflexivity.
-  - (* nothing requested: inside the guard the store holds nothing for the qualifier in force *)
-    destruct G as [G|[G|G]]; [exfalso; apply G; first [exact En|reflexivity]|exfalso; apply G; first [exact Erf|reflexivity]|].
-    rewrite (fresh_find _ _ G) in Hc. apply get_nameid_format_ok in Hc.
-    intros sec Hsec. apply applicable_fun in Hsec. rewrite Hc, (nim_format_configured _ Erf), Hsec. reflexivity.
+  intros sec Hsec. apply applicable_fun in Hsec. destruct (requested_format x) as [f|] eqn:E.
+  - apply nim_format_requested; exact E.
+  - rewrite (nim_format_configured _ E), Hsec. reflexivity.
 Qed.
 
-(* the property as a whole, for every configuration and every argument combination inside the guard *)
-Lemma spec_holds x : guard x -> spec x (create x).
+(* whichever way the identifier is obtained — found in the store under the format in force, matched as a
+   persistent one, or made afresh — it has the format in force *)
+Lemma chosen_format x nm src : a_name_id (arg x) = None -> choose_name_id x = Some (nm, src) ->
+  n_format nm = Some (nim_format x).
 Proof.
-  intros G. destruct (create x) as [r|e] eqn:E; cbn.
+  intros En Hc. unfold choose_name_id, choose_name_id_with, kwa_format in Hc. rewrite En in Hc.
+  destruct (find_nameid (stored x) (snq_of x) (Some (Some (nim_format x)))) as [[k n]|] eqn:Ef.
+  - inversion Hc; subst nm src. unfold find_nameid in Ef. apply find_first_some in Ef.
+    apply andb_true_iff in Ef. destruct Ef as [_ Ef]. apply opt_eqb_string in Ef. exact Ef.
+  - apply get_nameid_format_ok in Hc. exact Hc.
+Qed.
+
+Lemma nameid_holds x r : create x = Issued r -> nameid_ok x r.
+Proof.
+  intros H. destruct (create_issued _ _ H) as (nm & src & sr & sa & Hc & _ & ->).
+  unfold nameid_ok; cbn [i_nameid].
+  destruct (a_name_id (arg x)) as [n|] eqn:En.
+  - unfold choose_name_id, choose_name_id_with in Hc. rewrite En in Hc. inversion Hc; reflexivity.
+  - rewrite (chosen_format _ _ _ En Hc).
+    destruct (requested_format x) as [f|] eqn:Erf.
+    + rewrite (nim_format_requested _ _ Erf). reflexivity.
+    + intros sec Hsec. apply applicable_fun in Hsec. rewrite (nim_format_configured _ Erf), Hsec. reflexivity.
+Qed.
+
+(* the property as a whole, for every configuration and every argument combination *)
+Lemma spec_holds x : spec x (create x).
+Proof.
+  destruct (create x) as [r|e] eqn:E; cbn.
   - split; [apply scope_holds|split; [apply nameid_holds|apply sign_holds]]; assumption.
   - apply refusal_holds; exact E.
 Qed.
@@ -546,27 +560,18 @@ Qed.
 Lemma f1_v0_refuted : ~ spec witness_f1 (create_v0 witness_f1).
 Proof. apply refuted_by; [vm_compute; reflexivity|exact spec_b_iff]. Qed.
 
-(* the witness of the repaired finding is inside the guard now, and the repaired code satisfies the spec on it *)
+(* the witnesses of the repaired findings: where they lie, and that the repaired code satisfies the spec there *)
 Lemma f1_outside : store_fresh witness_f1 /\ ~ own_namespace witness_f1 /\ requested_format witness_f1 = None.
 Proof. repeat split; [intros n []|intros C; vm_compute in C; discriminate]. Qed.
 
-Lemma f1_now_holds : guard witness_f1 /\ spec witness_f1 (create witness_f1).
-Proof.
-  assert (G : guard witness_f1) by (right; right; intros n []).
-  split; [exact G|apply spec_holds; exact G].
-Qed.
-
-Lemma f2_refuted : ~ spec witness_f2 (create witness_f2).
+Lemma f2_v0_refuted : ~ spec witness_f2 (create_f2_v0 witness_f2).
 Proof. apply refuted_by; [vm_compute; reflexivity|exact spec_b_iff]. Qed.
 
-(* the witness violates only the name-identifier clause and lies outside the guard for the stated reason *)
-Lemma f2_outside : ~ guard witness_f2 /\ own_namespace witness_f2.
+Lemma f2_outside : ~ store_fresh witness_f2 /\ own_namespace witness_f2 /\ requested_format witness_f2 = None.
 Proof.
-  split; [|reflexivity]. intros [C|[C|C]].
-  - apply C; reflexivity.
-  - apply C; reflexivity.
-  - apply (C {| n_format := Some NAMEID_FORMAT_TRANSIENT; n_spnq := Some "https://sp.example.org/sp.xml";
-                n_nq := Some "https://idp.example.org/idp.xml" |}); [left; reflexivity|reflexivity].
+  split; [|split; reflexivity]. intros C.
+  apply (C {| n_format := Some NAMEID_FORMAT_TRANSIENT; n_spnq := Some "https://sp.example.org/sp.xml";
+              n_nq := Some "https://idp.example.org/idp.xml" |}); [left; reflexivity|reflexivity].
 Qed.
 
 (* ------------------------------------------------------------ end to end: composition with C01/C04/C05/C06 *)
@@ -750,9 +755,6 @@ Definition example_sp : spside :=
 
 Definition example_in : input :=
   {| cfg := base_cfg []; arg := base_args; ra := None; stored := []; now := 1700000000 |}.
-
-Example guard_satisfiable : guard example_in.
-Proof. right; right; intros n []. Qed.
 
 Example e2e_hypotheses_satisfiable :
   exists r, create example_in = Issued r
